@@ -443,4 +443,173 @@ theorem placeFresh_spec (b : Bank) (rs : List Win) (size : Nat) (inv : Inv b rs)
       rw [cover_append] at ht
       split at ht <;> omega
 
+/-- regions after one addition: a fresh placement hands out `[position, position+size)` -/
+def stepRegions (b : Bank) (h : Sample) (data : Bytes) (rs : List Win) : List Win :=
+  match findDuplicate b h data with
+  | some _ => rs
+  | none => rs ++ [⟨(placeFresh b h.size).2.1, h.size⟩]
+
+theorem housed_bounds {b : Bank} {rs : List Win} (inv : Inv b rs) {s : Sample} (hs : s ∈ b.samples) :
+    s.position + s.start + s.size ≤ b.currentSize := by
+  obtain ⟨r, hr, _, h2⟩ := inv.housed s hs
+  have := inv.regWf r hr; omega
+
+/-- the "create a new entry" branch keeps the invariant, shows the requested bytes and leaves
+every byte of every older region alone -/
+theorem addFresh_step (b : Bank) (rs : List Win) (h : Sample) (data : Bytes) (b' : Bank) (idx : Nat)
+    (inv : Inv b rs) (hfits : h.start + h.size ≤ data.length) (hsmall : data.length < 1073741824) (h0 : h.start = 0)
+    (hr : addFresh b h data = .ok (b', idx)) :
+    Inv b' (rs ++ [⟨(placeFresh b h.size).2.1, h.size⟩]) ∧
+    idx = b.samples.length ∧ b'.samples = b.samples ++ [{ h with position := (placeFresh b h.size).2.1 }] ∧
+    Win.reads b'.rom ⟨(placeFresh b h.size).2.1 + h.start, h.size⟩ = (data.drop h.start).take h.size ∧
+    (∀ w : Win, (∃ r ∈ rs, r.lo ≤ w.lo ∧ w.lo + w.len ≤ r.lo + r.len) → w.reads b'.rom = w.reads b.rom) ∧
+    b.currentSize ≤ b'.currentSize ∧ b'.maxSize = b.maxSize ∧ b'.bankSize = b.bankSize := by
+  unfold addFresh at hr
+  simp only [] at hr
+  split at hr
+  · cases hr
+  · rename_i hfit
+    split at hr
+    · cases hr
+    · rename_i hoob
+      have hsz : h.size < 1073741824 := by omega
+      obtain ⟨p1, p2, p3, p4, p5, p6, p7, p8⟩ := placeFresh_spec b rs h.size inv hsz hfit
+      generalize hst : (placeFresh b h.size).1 = st at *
+      generalize hsp : (placeFresh b h.size).2.1 = sp at *
+      generalize hg1 : (placeFresh b h.size).2.2 = gaps1 at *
+      simp only [Except.ok.injEq, Prod.mk.injEq] at hr
+      obtain ⟨hb', hidx⟩ := hr
+      subst hb'
+      have hrl := inv.romLen
+      have hw1 : sp + h.size ≤ b.rom.length := by omega
+      have hw2 : h.size ≤ data.length := by omega
+      refine ⟨?_, hidx.symm, rfl, ?_, ?_, p2, rfl, rfl⟩
+      · refine ⟨?_, p3, inv.bankPos, inv.small, p5, ?_, ?_, ?_, ?_, ?_⟩
+        · simp only; rw [writeAt_length _ _ _ _ hw1 hw2]; exact hrl
+        · intro r hr
+          rcases List.mem_append.mp hr with hr | hr
+          · have := inv.regWf r hr; simp only; omega
+          · have : r = ⟨sp, h.size⟩ := by simpa using hr
+            subst this; simp only; omega
+        · intro x
+          have ht := inv.tiles x
+          have h6 := p6 x
+          simp only [List.append_assoc, cover_append, cover_single] at ht h6 ⊢
+          omega
+        · have ha := inv.account
+          simp only [total_append] at ha p7 ⊢
+          simp only [total, List.map_cons, List.map_nil, List.sum_cons, List.sum_nil] at ha p7 ⊢
+          omega
+        · intro s hs
+          rcases List.mem_append.mp hs with hs | hs
+          · obtain ⟨r, hr, h1, h2⟩ := inv.housed s hs
+            exact ⟨r, List.mem_append_left _ hr, h1, h2⟩
+          · have : s = { h with position := sp } := by simpa using hs
+            subst this
+            exact ⟨⟨sp, h.size⟩, List.mem_append_right _ (by simp), Nat.le_refl _, by simp only; omega⟩
+        · intro s hs
+          rcases List.mem_append.mp hs with hs | hs
+          · exact inv.placed s hs
+          · have : s = { h with position := sp } := by simpa using hs
+            subst this
+            simp only [h0, Nat.add_zero]; exact p1
+      · simp only [h0, Nat.add_zero, List.drop_zero]
+        exact reads_writeAt_self _ _ _ _ hw1 hw2
+      · intro w ⟨r, hr, hw1', hw2'⟩
+        simp only
+        by_cases hz : h.size = 0
+        · rw [hz, writeAt_zero]
+        by_cases hwz : w.len = 0
+        · simp [Win.reads, hwz]
+        apply reads_writeAt_other _ _ _ _ _ hw1 hw2
+        have c1 : ¬ (r.lo ≤ sp ∧ sp < r.lo + r.len) := by
+          intro hc
+          have := cover_mem rs r sp hr (by simp only [Win.has]; exact hc)
+          have := p8 sp (Nat.le_refl _) (by omega); omega
+        have c2 : ¬ (sp ≤ w.lo ∧ w.lo < sp + h.size) := by
+          intro hc
+          have := cover_mem rs r w.lo hr (by simp only [Win.has]; omega)
+          have := p8 w.lo hc.1 hc.2; omega
+        omega
+
+/-- the result of one successful addition, as the client sees it -/
+structure StepOut (b : Bank) (rs rs' : List Win) (h : Sample) (data : Bytes) (b' : Bank) (idx : Nat) : Prop where
+  inv : Inv b' rs'
+  entry : ∃ s, b'.samples[idx]? = some s ∧ s.win.reads b'.rom = (data.drop h.start).take h.size ∧
+            s.start = h.start ∧ s.size = h.size ∧ s.rate = h.rate
+  stable : ∀ w : Win, (∃ r ∈ rs, r.lo ≤ w.lo ∧ w.lo + w.len ≤ r.lo + r.len) → w.reads b'.rom = w.reads b.rom
+  grows : ∃ extra, b'.samples = b.samples ++ extra
+  same : b'.maxSize = b.maxSize ∧ b'.bankSize = b.bankSize
+
+theorem addSample_step (b : Bank) (rs : List Win) (h : Sample) (data : Bytes) (b' : Bank) (idx : Nat)
+    (inv : Inv b rs) (adm : Adm b h data) (hr : addSample b h data = .ok (b', idx)) :
+    StepOut b rs (stepRegions b h data rs) h data b' idx := by
+  unfold addSample at hr
+  have hb0 : ¬ b.bankSize = 0 := by have := inv.bankPos; omega
+  simp only [hb0, if_false] at hr
+  split at hr
+  · -- shared data
+    rename_i d hd
+    have hsr : stepRegions b h data rs = rs := by simp [stepRegions, hd]
+    rw [hsr]
+    unfold findDuplicate at hd
+    obtain ⟨hlt, hp, _⟩ := List.findIdx?_eq_some_iff_getElem.mp hd
+    have hgd : b.samples.getD d h = b.samples[d] := by
+      rw [List.getD_eq_getElem?_getD, List.getElem?_eq_getElem hlt]; rfl
+    rw [hgd] at hr
+    generalize hi : b.samples[d] = i at *
+    have him : i ∈ b.samples := by rw [← hi]; exact List.getElem_mem hlt
+    simp only [dupTest, Bool.and_eq_true, decide_eq_true_eq] at hp
+    obtain ⟨⟨⟨⟨t1, t2⟩, t3⟩, t4⟩, t5⟩ := hp
+    obtain ⟨r, hrm, hr1, hr2⟩ := inv.housed i him
+    have hrw := inv.regWf r hrm
+    have hcur := inv.curLe
+    obtain ⟨hm, hbk⟩ := inv.small
+    have hfits := adm.fits
+    have epos : u32 (i.position + h.start) = i.position + h.start := u32_small (by omega)
+    have erl : u32 b.rom.length = b.rom.length := u32_small (by rw [inv.romLen]; omega)
+    rw [epos, erl] at t4
+    have hplaced : fitStart b.bankSize h.size (i.position + h.start) = i.position + h.start := by
+      have hne : fitSample b.bankSize h.size (i.position + h.start) b.rom.length ≠ NO_FIT := by
+        rw [t4]; simp only [NO_FIT, Tables.wave_NO_FIT]; omega
+      have := (fit_spec b.bankSize h.size (i.position + h.start) b.rom.length inv.bankPos hbk
+        (by rw [inv.romLen]; omega) (by rw [inv.romLen]; omega) (by omega) hne).1
+      rw [t4] at this; exact this.symm
+    have hcontent : Win.reads b.rom ⟨i.position + h.start, h.size⟩ = (data.drop h.start).take h.size :=
+      reads_sub b.rom data i.position h.start h.size t5 hfits
+    have hhoused : ∃ r ∈ rs, r.lo ≤ i.position ∧ i.position + h.start + h.size ≤ r.lo + r.len :=
+      ⟨r, hrm, hr1, by omega⟩
+    split at hr
+    · -- an equal header exists: reuse it
+      rename_i ri hri
+      simp only [Except.ok.injEq, Prod.mk.injEq] at hr
+      obtain ⟨rfl, rfl⟩ := hr
+      obtain ⟨hlt2, hp2, _⟩ := List.findIdx?_eq_some_iff_getElem.mp hri
+      simp only [sameHeader, decide_eq_true_eq] at hp2
+      refine ⟨inv, ⟨b.samples[ri], List.getElem?_eq_getElem hlt2, ?_, ?_, ?_, ?_⟩, fun _ _ => rfl, ⟨[], by simp⟩, rfl, rfl⟩
+      all_goals rw [hp2]
+      · exact hcontent
+      all_goals rfl
+    · simp only [Except.ok.injEq, Prod.mk.injEq] at hr
+      obtain ⟨rfl, rfl⟩ := hr
+      refine ⟨?_, ⟨{ h with position := i.position }, by simp, hcontent, rfl, rfl, rfl⟩, fun _ _ => rfl, ⟨_, rfl⟩, rfl, rfl⟩
+      refine ⟨inv.romLen, inv.curLe, inv.bankPos, inv.small, inv.gapWf, inv.regWf, inv.tiles, inv.account, ?_, ?_⟩
+      · intro s hs
+        rcases List.mem_append.mp hs with hs | hs
+        · exact inv.housed s hs
+        · have : s = { h with position := i.position } := by simpa using hs
+          subst this; exact hhoused
+      · intro s hs
+        rcases List.mem_append.mp hs with hs | hs
+        · exact inv.placed s hs
+        · have : s = { h with position := i.position } := by simpa using hs
+          subst this; exact hplaced
+  · -- fresh placement
+    rename_i hd
+    have hsr : stepRegions b h data rs = rs ++ [⟨(placeFresh b h.size).2.1, h.size⟩] := by simp [stepRegions, hd]
+    rw [hsr]
+    obtain ⟨q1, q2, q3, q4, q5, _, q7, q8⟩ := addFresh_step b rs h data b' idx inv adm.fits adm.small (adm.fresh0 hd) hr
+    refine ⟨q1, ⟨{ h with position := (placeFresh b h.size).2.1 }, ?_, q4, rfl, rfl, rfl⟩, q5, ⟨_, q3⟩, q7, q8⟩
+    rw [q3, q2]; simp
+
 end Ctrmml.Wave
